@@ -30,7 +30,10 @@ import (
 )
 
 func TestVerif(t *testing.T) {
-	drv.Main(t, drv.Wrap(drv.Engine[c08Case]{Property: "C08", Name: "c08", Gen: genC08, Run: runC08, BatchChecks: 300, GCEvery: 4}))
+	drv.Main(t,
+		drv.Wrap(drv.Engine[c08Case]{Property: "C08", Name: "c08", Gen: genC08, Run: runC08, BatchChecks: 300, GCEvery: 4}),
+		drv.Wrap(drv.Engine[c08cCase]{Property: "C08", Name: "c08-conc", Gen: genC08Conc, Run: runC08Conc, BatchChecks: 100}),
+	)
 }
 
 type c08Chan struct {
